@@ -14,6 +14,8 @@ def tokChars : Tok → List Char
   | .darrow => ['<', '-', '>']
   | .nl => ['\n'] | .colon => [':'] | .le => ['<', '='] | .ge => ['>', '='] | .eq => ['='] | .lt => ['<'] | .gt => ['>']
   | .st => ['s', '.', 't', '.']
+  | .lbrace => ['{'] | .rbrace => ['}'] | .lbrack => ['['] | .rbrack => [']'] | .dotdot => ['.', '.']
+  | .dotdoteq => ['.', '.', '='] | .us => ['_'] | .str s => '"' :: s.toList ++ ['"']
 
 /-- tokens separated by single spaces -/
 def spell : List Tok → List Char
@@ -27,6 +29,7 @@ def TokOK : Tok → Prop
   | .float s => FloatParts s
   | .word s => plainWord s.toList = true
   | .nl | .colon | .le | .ge | .eq | .lt | .gt | .st => False     -- program-level tokens: not part of an expression text
+  | .lbrace | .rbrace | .lbrack | .rbrack | .dotdot | .dotdoteq | .us | .str _ => False   -- not written by the minimal printer
   | _ => True
 
 theorem lex_arrow (f : Nat) (r : List Char) (pw : Bool) (acc : List Tok) :
@@ -80,7 +83,8 @@ theorem lexTo_tok (t : Tok) (h : TokOK t) (rest : List Char) (hr : rest = [] ∨
   | bang => exact LexTo.of_step (fun f => lex_bang f rest pw acc) (by simp [tokChars])
   | arrow => exact LexTo.of_step (fun f => lex_arrow f rest pw acc) (by simp [tokChars]; omega)
   | darrow => exact LexTo.of_step (fun f => lex_darrow f rest pw acc) (by simp [tokChars]; omega)
-  | nl | colon | le | ge | eq | lt | gt | st => exact absurd h (by simp [TokOK])
+  | nl | colon | le | ge | eq | lt | gt | st | lbrace | rbrace | lbrack | rbrack | dotdot | dotdoteq | us => exact absurd h (by simp [TokOK])
+  | str s => exact absurd h (by simp [TokOK])
 
 theorem lexTo_spell : ∀ (ts : List Tok), (∀ t ∈ ts, TokOK t) → ∀ (pw : Bool) (acc : List Tok),
     LexTo (spell ts) pw acc [] (ts.reverse ++ acc)
